@@ -540,10 +540,52 @@ func checkStartHistory(c *startHistory) string {
 	return ""
 }
 
+// rejectHistory: calls on one interpreter with the start check enabled, the
+// earlier ones refused.  Every call is judged by its own bytes until one has
+// passed the check.
+type rejectHistory struct {
+	Calls []string `json:"calls"`
+}
+
+func checkRejectHistory(c *rejectHistory) string {
+	intp := postscript.NewInterpreter()
+	intp.CheckStart = true
+	passed := false
+	for i, text := range c.Calls {
+		before := intp.NumOps
+		err := intp.ExecuteString(text)
+		if passed {
+			if err == postscript.ErrNoPostScript {
+				return fmt.Sprintf("call %d (%q) of %q: ErrNoPostScript after an earlier call had passed the check", i+1, text, c.Calls)
+			}
+			continue
+		}
+		if strings.HasPrefix(text, "%!") {
+			if err == postscript.ErrNoPostScript {
+				return fmt.Sprintf("call %d (%q) of %q begins with %%! and is refused with ErrNoPostScript (the earlier calls were refused)", i+1, text, c.Calls)
+			}
+			passed = true
+			continue
+		}
+		if err != postscript.ErrNoPostScript {
+			return fmt.Sprintf("call %d (%q) of %q does not begin with %%! (the earlier calls were refused), but err = %v, want ErrNoPostScript", i+1, text, c.Calls, err)
+		}
+		if intp.NumOps != before || len(intp.Stack) != 0 || len(intp.UserDict) != 0 {
+			return fmt.Sprintf("call %d (%q) of %q was refused, but something was executed: NumOps=%d stack=%d userdict=%d", i+1, text, c.Calls, intp.NumOps, len(intp.Stack), len(intp.UserDict))
+		}
+	}
+	if passed {
+		if _, ok := intp.UserDict["ran"]; !ok {
+			return fmt.Sprintf("calls %q: the call that passed the check did not run its program", c.Calls)
+		}
+	}
+	return ""
+}
+
 func TestP3Start(t *testing.T) {
 	rec := ev.New("C11", "start")
 	defer rec.Finish(t)
-	rec.Rule("all 65,536 two-byte prefixes, the empty input and all 256 one-byte inputs, followed by a line break and a program with visible effect, with CheckStart = true: anything but %! must give ErrNoPostScript with NumOps == 0, empty stack and empty userdict; %! must run the program, and a second Execute call without %! on the same interpreter must be accepted. Every prefix counts once. Plus call histories on one interpreter: a first call that begins with %! and then succeeds, fails with a PostScript error, is stopped, exceeds a budget of 1, 3 or 1000 operations, or ends inside an unfinished procedure or string, followed by one or two calls without %!, none of which may be answered with ErrNoPostScript (once passed, the check is not repeated).")
+	rec.Rule("all 65,536 two-byte prefixes, the empty input and all 256 one-byte inputs, followed by a line break and a program with visible effect, with CheckStart = true: anything but %! must give ErrNoPostScript with NumOps == 0, empty stack and empty userdict; %! must run the program, and a second Execute call without %! on the same interpreter must be accepted. Every prefix counts once. Plus call histories on one interpreter: a first call that begins with %! and then succeeds, fails with a PostScript error, is stopped, exceeds a budget of 1, 3 or 1000 operations, or ends inside an unfinished procedure or string, followed by one or two calls without %!, none of which may be answered with ErrNoPostScript (once passed, the check is not repeated); and histories that begin with one or two refused calls (13 refused inputs incl. the empty one, a lone %, a lone !), followed by inputs that continue the refused bytes (`!...` after `%`) or begin with %!: every call is judged by its own bytes until one has passed - refused calls execute nothing, the first call beginning with %! runs.")
 	k := 0
 	try := func(p []byte) {
 		k++
@@ -584,6 +626,31 @@ func TestP3Start(t *testing.T) {
 			}
 		}
 	}
+	// histories that begin with refused calls
+	refused := []string{"%", "!", "x", "%%", "% !", "", "\n%!", " %!\n1", "%\n!", "%?\n/ran 1 def", "1 2 add /ran 1 def", "!\n/ran 1 def", "(%!)"}
+	next := []string{"!\n/ran 1 def 1 2 add", "%!\n/ran 1 def", "%!PS\n/ran 1 def 3", "!", "%", "\n/ran 1 def", "/ran 1 def"}
+	for _, r1 := range refused {
+		for _, r2 := range append([]string{"-"}, refused[:6]...) {
+			for _, n := range next {
+				k++
+				if !ev.Mine(k) {
+					continue
+				}
+				calls := []string{r1}
+				if r2 != "-" {
+					calls = append(calls, r2)
+				}
+				calls = append(calls, n, "/later 1 def", "%!\n/ran 1 def")
+				c := &rejectHistory{Calls: calls}
+				rec.Eval(1)
+				rec.Class("history with refused calls")
+				rec.NonTrivial(fmt.Sprint("refused", calls))
+				if msg := ev.Safe(func() string { return checkRejectHistory(c) }); msg != "" {
+					rec.Violation(false, msg, map[string]any{"reject_history": c})
+				}
+			}
+		}
+	}
 	rec.Exhaustive()
 	rec.Sample(map[string]any{"prefix": "%!", "want": "accepted"})
 	rec.Sample(map[string]any{"prefix": "%%", "want": "ErrNoPostScript, nothing executed"})
@@ -598,10 +665,11 @@ func TestReplay(t *testing.T) {
 		t.Skip("no VERIF_REPLAY")
 	}
 	var c struct {
-		Budget *budgetCase   `json:"budget"`
-		Limit  *limitCase    `json:"limit"`
-		Start  *startCase    `json:"start"`
-		Hist   *startHistory `json:"start_history"`
+		Budget *budgetCase    `json:"budget"`
+		Limit  *limitCase     `json:"limit"`
+		Start  *startCase     `json:"start"`
+		Hist   *startHistory  `json:"start_history"`
+		Reject *rejectHistory `json:"reject_history"`
 	}
 	if err := json.Unmarshal(rc.Case, &c); err != nil {
 		t.Fatal(err)
@@ -618,6 +686,8 @@ func TestReplay(t *testing.T) {
 		msg = ev.Safe(func() string { return checkStart(c.Start) })
 	case c.Hist != nil:
 		msg = ev.Safe(func() string { return checkStartHistory(c.Hist) })
+	case c.Reject != nil:
+		msg = ev.Safe(func() string { return checkRejectHistory(c.Reject) })
 	}
 	if msg != "" {
 		t.Fatalf("%s", msg)
